@@ -8,7 +8,7 @@ from .. import core, gen
 from ..refs import sanitize as ref
 
 ALPHABET = ["0", "1", "a", "B", "é", "-", "/", ".", "_"]
-SEPS = [".", "-", "_", "--", "-.", "\u00b7", None]   # the statement says "a non-alphanumeric separator": also several characters, also non-ASCII
+SEPS = [".", "-", "_", "--", "-.", "\u00b7", "---", "-.-", "....", None]   # the statement says "a non-alphanumeric separator": also several characters, also non-ASCII
 MAXLENS = [None, 0, 1, 2, 3, 5]
 MINIMUMS = (50000, 1000)
 
@@ -148,6 +148,9 @@ TPL_COMBOS = [
     ("separator='-.', lowercase=true, max_length=6", dict(separator="-.", lowercase=True, keep_zeros=False, max_length=6)),
     ("separator='\u00b7', max_length=4", dict(separator="\u00b7", lowercase=False, keep_zeros=False, max_length=4)),
     ("separator='::'", dict(separator="::", lowercase=False, keep_zeros=False, max_length=None)),
+    ("separator='---', max_length=4", dict(separator="---", lowercase=False, keep_zeros=False, max_length=4)),
+    ("separator='___', max_length=9", dict(separator="___", lowercase=False, keep_zeros=False, max_length=9)),
+    ("separator='-.-', max_length=5", dict(separator="-.-", lowercase=False, keep_zeros=False, max_length=5)),
 ]
 TL, TR = "\u2039", "\u203a"
 
